@@ -23,6 +23,7 @@ coordinates, projected lines) are recorded in fixed point round(p / tau * S) and
 rounding bound derived in Decorators.tla."""
 import json
 import math
+import os
 
 import numpy as np
 
@@ -58,6 +59,7 @@ MC_CFG = """CONSTANTS
   DerOps <- MCNone
   ProjShapes <- MCProjShapes
   AngleQs <- MCAngleQs
+  Families <- MCFamilies
 SPECIFICATION Spec
 INVARIANT GridAsBuilt
 PROPERTY GridNeverWritten
@@ -95,6 +97,7 @@ MC_H_CFG = """CONSTANTS
   DerOps <- MCDerOps
   ProjShapes <- MCNone
   AngleQs <- MCNone
+  Families <- MCNone
 SPECIFICATION SpecH
 INVARIANT GridAsBuilt
 INVARIANT HistorySeesBuiltGrid
@@ -124,6 +127,7 @@ TRACE_CFG = """CONSTANTS
   DerOps = {}
   ProjShapes = {}
   AngleQs = {}
+  Families = {}
 SPECIFICATION TraceSpec
 POSTCONDITION TraceAccepted
 """
@@ -917,7 +921,7 @@ def expected_count(b):
     rs = {g[3] for g in b["geoms"]}
     reloc = 3 * len(b["geoms"]) * nm(b["mid_shapes"]) + 2 * (2 * b["lattice"] + 1) ** 2 * len(rs)
     tiny = len(b["tiny_eps"]) * len(b["tiny_dirs"]) * len(rs) * (2 + 3 * nm(b["tiny_shapes"]))
-    return wrap + proj + trans + reloc + tiny
+    return {"wrap": wrap, "project": proj, "transform": trans, "reloc": reloc, "tiny": tiny}
 
 
 def enumerate_instances(ctx, b):
@@ -936,11 +940,26 @@ def enumerate_instances(ctx, b):
         f"MCAngleQs == {_tla_set(str(a) for a in b['angle_qs'])}",
         "MCNone == {}",
     ])
-    res = ctx.tlc("Decorators", MC_CFG, defs=defs, tag="MC_Decorators", timeout=3000, coverage=True)
-    insts = res.by_kind("inst")
     want = expected_count(b)
-    if len(insts) != want or res.distinct != 2 * want:
-        raise core.MachineryError(f"Decorators.tla enumerated {len(insts)} instances / {res.distinct} states, expected {want}")
+    # TLC computes initial states in one thread and slows down superlinearly with their number: split large bounds over runs
+    groups = [["wrap", "project", "transform", "reloc", "tiny"]] if sum(want.values()) < 15000 else \
+             [["wrap"], ["project", "transform"], ["reloc"], ["tiny"]]
+
+    def one(fams):
+        d = defs + "\nMCFamilies == " + _tla_set(f'"{f}"' for f in fams)
+        res = ctx.tlc("Decorators", MC_CFG, defs=d, tag="MC_Decorators_" + "_".join(fams) if len(groups) > 1 else "MC_Decorators",
+                      timeout=3000, coverage=True, workers=max(2, (os.cpu_count() or 4) // len(groups)))
+        got = res.by_kind("inst")
+        n = sum(want[f] for f in fams)
+        if len(got) != n or res.distinct != 2 * n:
+            raise core.MachineryError(f"Decorators.tla {fams} enumerated {len(got)} instances / {res.distinct} states, expected {n}")
+        return got
+
+    import concurrent.futures as cf
+    insts = []
+    with cf.ThreadPoolExecutor(max_workers=len(groups)) as ex:
+        for got in ex.map(one, groups):
+            insts.extend(got)
     for r in insts:
         r.pop("k", None)
     return insts
